@@ -452,6 +452,24 @@ def rule_protocol(ctx: Ctx) -> None:
     ctx.floor("C04-3", 12)
 
 
+def replay_snapshot_rules(ctx: Ctx, rule: str) -> None:
+    """pre-run event specs are snapshots: what is remembered for replay must not alias objects the run mutates (C04-4; C03-5 as a dependency)"""
+    prog = ctx.prog
+    sv = prog.func(SIM, "Simulation._save_event_specs")
+    apps = [c for c in calls_in(sv.node) if path_of(c.func) == "self._pre_run_event_specs.append"]
+    ok = False
+    if len(apps) == 1 and isinstance(apps[0].args[0], ast.Tuple):
+        elts = apps[0].args[0].elts
+        metas = [e for e in elts if "meta" in unparse(e)]
+        ok = len(metas) == 1 and isinstance(metas[0], ast.Call) and (path_of(metas[0].func) in ("dict", "copy.copy", "copy.deepcopy") or (isinstance(metas[0].func, ast.Attribute) and metas[0].func.attr == "copy"))
+    ctx.ob(rule, "G7", sv, apps[0] if apps else None, ok, "the metadata remembered for replay is a copy taken at schedule time (handlers mutating an event's metadata during the run must not change what reset() replays)")
+    rp = prog.func(SIM, "Simulation._replay_pre_run_events")
+    mk = [c for c in calls_in(rp.node) if path_of(c.func) == "Event"]
+    ctxs = [s_ for s_ in walk_stmts(rp.node.body) if isinstance(s_, ast.Assign) and path_of(s_.targets[0]) == "ctx"]
+    ok = len(mk) == 1 and len(ctxs) == 1 and "dict(meta)" in unparse(ctxs[0].value)
+    ctx.ob(rule, "G7", rp, mk[0] if mk else None, ok, "each replay builds a fresh Event with its own copy of the remembered metadata (a second reset replays the same thing)")
+
+
 def rule_reset(ctx: Ctx) -> None:
     """C04-4: the event origins primed by Simulation.__init__ are all re-primed by SimulationControl.reset()."""
     prog = ctx.prog
@@ -488,20 +506,7 @@ def rule_reset(ctx: Ctx) -> None:
     hp = [s for s in walk_stmts(reset.node.body) if isinstance(s, ast.Assign) and path_of(s.targets[0]) == "self._sim._event_heap"]
     cu = [c for c in calls_in(reset.node) if path_of(c.func) == "self._sim._clock.update" and [path_of(a) for a in c.args] == ["self._sim._start_time"]]
     ctx.ob("C04-4", "G2", reset, "fresh heap + clock rewound", len(hp) == 1 and len(cu) == 1, "reset() installs an empty heap and rewinds the shared clock to the start time")
-    # pre-run event specs are snapshots: what is remembered for replay must not alias objects the run mutates
-    sv = prog.func(SIM, "Simulation._save_event_specs")
-    apps = [c for c in calls_in(sv.node) if path_of(c.func) == "self._pre_run_event_specs.append"]
-    ok = False
-    if len(apps) == 1 and isinstance(apps[0].args[0], ast.Tuple):
-        elts = apps[0].args[0].elts
-        metas = [e for e in elts if "meta" in unparse(e)]
-        ok = len(metas) == 1 and isinstance(metas[0], ast.Call) and (path_of(metas[0].func) in ("dict", "copy.copy", "copy.deepcopy") or (isinstance(metas[0].func, ast.Attribute) and metas[0].func.attr == "copy"))
-    ctx.ob("C04-4", "G7", sv, apps[0] if apps else None, ok, "the metadata remembered for replay is a copy taken at schedule time (handlers mutating an event's metadata during the run must not change what reset() replays)")
-    rp = prog.func(SIM, "Simulation._replay_pre_run_events")
-    mk = [c for c in calls_in(rp.node) if path_of(c.func) == "Event"]
-    ctxs = [s_ for s_ in walk_stmts(rp.node.body) if isinstance(s_, ast.Assign) and path_of(s_.targets[0]) == "ctx"]
-    ok = len(mk) == 1 and len(ctxs) == 1 and "dict(meta)" in unparse(ctxs[0].value)
-    ctx.ob("C04-4", "G7", rp, mk[0] if mk else None, ok, "each replay builds a fresh Event with its own copy of the remembered metadata (a second reset replays the same thing)")
+    replay_snapshot_rules(ctx, "C04-4")
     ctx.floor("C04-4", 8)
 
 
@@ -539,6 +544,15 @@ def rule_round2(ctx: Ctx) -> None:
             continue
         if not any(k[0] == "is" and k[2] == "None" for k in p_.facts):
             bad.append(f"no comparison on the path [{p_.describe()}]")
+    # ... and no condition of the function decides by truthiness: an entity with __len__/__bool__ (a queue, a buffer) or a reading of 0
+    # is falsy exactly when a "drained" threshold should fire
+    tests = [x.test for x in walk_scope(mb.node, include_root=False) if isinstance(x, (ast.If, ast.IfExp, ast.While))] + \
+            [x for x in walk_scope(mb.node, include_root=False) if isinstance(x, ast.BoolOp)] + \
+            [x for x in walk_scope(mb.node, include_root=False) if isinstance(x, ast.UnaryOp) and isinstance(x.op, ast.Not)]
+    for t_ in tests:
+        for f_ in atoms(t_, True):
+            if f_.sig[0] in ("truthy", "falsy"):
+                bad.append(f"`{unparse(t_)}` decides by the truthiness of `{f_.sig[1]}`")
     cmp_ret = [st for st in walk_stmts(mb.node.body) if isinstance(st, ast.Return) and isinstance(st.value, ast.Call)]
     ctx.ob("C04-3", "G1", mb, cmp_ret[0] if cmp_ret else None, not bad and len(cmp_ret) == 1, "MetricBreakpoint compares every value that is not None with the threshold (0, 0.0, False and empty containers are readings, not 'missing')"
            + ("" if not bad else " — " + bad[0]))
@@ -598,6 +612,7 @@ def run(ctx: Ctx) -> None:
 
 
 MUTANTS = [
+    ("metric-breakpoint-entity-by-truthiness", BRK, "        if entity is None:\n            return False\n        value = getattr(entity, self.attribute, None)\n", "        value = getattr(entity, self.attribute, None) if entity else None\n", "C04-3"),
     ("reset-replays-before-priming", CTL, ["        # Replay events that were scheduled before the first run()\n        self._sim._replay_pre_run_events()\n\n", "        # Reset clock\n"], ["", "        self._sim._replay_pre_run_events()\n        # Reset clock\n"], "C04-4"),
     ("metric-breakpoint-falsy-is-missing", BRK, "        value = getattr(entity, self.attribute, None)\n        if value is None:\n            return False", "        value = getattr(entity, self.attribute, None)\n        if not value:\n            return False", "C04-3"),
     ("schedule-guard-on-processed-count", SIM, "        if not self._is_running:\n            self._save_event_specs(events)", "        if self._events_processed == 0:\n            self._save_event_specs(events)", "C04-1"),
